@@ -20,7 +20,7 @@
 From Coq Require Import QArith.
 From Verif Require Import Prelude Model.Sheet.
 From Verif Require Import Proofs.Sheet Proofs.Sheet2 Proofs.Sheet3 Proofs.Sheet4 Proofs.Sheet5 Proofs.Sheet6 Proofs.Sheet7
-                          Proofs.Sheet8.
+                          Proofs.Sheet8 Proofs.Sheet9 Proofs.Sheet10.
 Open Scope Z_scope.
 
 (* ---- accepted workbooks ---- *)
@@ -77,12 +77,35 @@ Theorem C20_accepted_is_sane : forall w n, convert w = Ok n -> sane (nodes_of w)
 Proof. exact accepted_is_sane. Qed.
 Print Assumptions C20_accepted_is_sane.
 
-(* every rejection is one of the ten sanity rules, or the arithmetic error of a PMD value on a length <= 0; the
-   KeyError / StopIteration / IndexError places of convert.py are unreachable *)
+(* every rejection is one of the ten sanity rules, the documented error of a Roadms row whose 'from degrees' and
+   impairment ids differ in number, a non-integer impairment id, or the arithmetic error of a PMD value on a length
+   <= 0; the KeyError / StopIteration / IndexError places of convert.py are unreachable *)
 Theorem C20_convert_errors : forall w e, convert w = Err e ->
-  (exists r, In r rules /\ e = topo_err r) \/ e = "ZeroDivisionError:pmd"%string \/ e = "ValueError:pmd"%string.
+  (exists r, In r rules /\ e = topo_err r) \/ In e other_errors.
 Proof. exact convert_errors. Qed.
 Print Assumptions C20_convert_errors.
+
+(* ---- Roadms sheet: per-degree impairments ---- *)
+(* the ROADM element of a ROADM site carries exactly the triples of the Roadms rows whose Node A is the site: from the
+   ingress element 'west edfa in A to <from degree>' to the egress element 'east edfa in A to <Node Z>', with the
+   i-th id for the i-th 'from degree' *)
+Theorem C20_impairments_land : forall w n, convert w = Ok n ->
+  forall m, In m (final_nodes w) -> n_type m = TRoadm ->
+  exists e v rs pd pi, In e (elements n) /\ el_uid e = URoadm (n_city m) /\ el_c e = CRoadm v rs pd pi /\
+    forall t, In t (odef [] pi) <->
+      exists r fdc ids fd id, In r (w_roadms w) /\ rr_from r = n_city m /\
+        ostr_o (rr_from_deg r) = Some fdc /\ transform_data (rr_imp r) = Ok (Some ids) /\
+        In (fd, id) (combine (split bar fdc) ids) /\
+        t = (UEdfaTo West (n_city m) fd, UEdfaTo East (n_city m) (rr_to r), id).
+Proof. exact impairments_land. Qed.
+Print Assumptions C20_impairments_land.
+(* and these two degrees are elements of the network as soon as the Eqpt sheet has the rows (A, from degree), (A, Z);
+   by C20_eqpt_facing they are the amplifiers fed by the fibre from <from degree> / feeding the fibre to Z *)
+Theorem C20_impairment_degrees_exist : forall w n, convert w = Ok n -> forall a b c,
+  In a (eqpts_of_w w) -> In b (eqpts_of_w w) -> e_from a = c -> e_from b = c ->
+  In (UEdfaTo West c (e_to a)) (uids n) /\ In (UEdfaTo East c (e_to b)) (uids n).
+Proof. exact impairment_degrees_exist. Qed.
+Print Assumptions C20_impairment_degrees_exist.
 
 (* ---- the full statement without the `wellformed` guard is false of the faithful model: witness (replayed on
         gnpy by the harness: corpus/C20/f20d) ---- *)
@@ -127,17 +150,116 @@ Theorem C20_route_objects_spec : forall q,
 Proof. exact route_objects_spec. Qed.
 Print Assumptions C20_route_objects_spec.
 
-(* partial: name correction is proved to leave everything but the route list untouched and to require both end
-   points to be transceivers; that every surviving route entry names an element of the network is tied by the
-   correspondence run and the oracle only (the first-occurrence list surgery of correct_xls_route_list is modelled,
-   its invariant is not proved) *)
-Theorem C20_correct_route_keeps_partial : forall d ru tf tu r r', correct_route d ru tf tu r = Ok r' ->
+(* ---- route-name correction (correct_xls_route_list): the list surgery ----
+   `surgery dec i temp live` is the loop: hop k of the copy `temp` is kept / renamed / dropped / refused according to
+   `dec`, acting on the FIRST occurrence of its name in the live list.  `slots` is the slot-by-slot image.
+   A service row has one strictness for all its hops (r_loose), so "the i-th strictness belongs to the i-th kept hop"
+   holds by construction; what has to be proved is that every operation hits the hop's own slot. *)
+Theorem C20_route_surgery_slotwise : forall dec temp i done, clean dec i temp done ->
+  surgery dec i temp (done ++ temp) = (let* r := slots dec i temp in Ok (done ++ r)).
+Proof. exact surgery_slotwise. Qed.
+Print Assumptions C20_route_surgery_slotwise.
+(* whether it raises (a STRICT hop that cannot be corrected) depends on the decisions only *)
+Theorem C20_route_surgery_raises : forall dec temp i live e,
+  surgery dec i temp live = Err e <-> slots dec i temp = Err e.
+Proof. exact surgery_raises. Qed.
+Print Assumptions C20_route_surgery_raises.
+(* `clean` holds when no hop name is repeated and no corrected name is itself written in the list *)
+Theorem C20_route_clean_sufficient : forall dec temp i done, NoDup temp -> (forall x, In x done -> ~ In x temp) ->
+  (forall j n s, In n temp -> dec j n = ARename s -> ~ In s temp) -> clean dec i temp done.
+Proof. exact clean_sufficient. Qed.
+Print Assumptions C20_route_clean_sufficient.
+Theorem C20_correct_route_slotwise : forall k r r',
+  let l := pop_ends (r_src r) (r_dst r) (r_nodes r) in
+  let dec := decide (k_graph k) (k_roadm k) (k_fused k) (k_ila k) (k_next k) (r_loose r) (r_dst r) l in
+  clean dec 0 l [] -> correct_route k r = Ok r' -> slots dec 0 l = Ok (r_nodes r').
+Proof. exact correct_route_slotwise. Qed.
+Print Assumptions C20_correct_route_slotwise.
+(* the decision for one hop: unknown names and transceiver / fibre names are dropped when LOOSE and refused when
+   STRICT; a hop is only ever renamed into one of its suggestions; exact ROADM / amplifier uids are kept *)
+Theorem C20_decide_spec : forall g cr cf ci nn dst route i n,
+  (smem n (uids_of_kind KTrx g ++ uids_of_kind KFiber g) = true ->
+     decide g cr cf ci nn false dst route i n = AFail "ServiceError:trx_or_fiber_in_strict_route" /\
+     decide g cr cf ci nn true dst route i n = ADrop) /\
+  (smem n (uids_of_kind KTrx g ++ uids_of_kind KFiber g) = false -> suggestions g cr cf ci n = [] ->
+     decide g cr cf ci nn false dst route i n = AFail "ServiceError:unknown_node_in_strict_route" /\
+     decide g cr cf ci nn true dst route i n = ADrop) /\
+  (smem n (uids_of_kind KTrx g ++ uids_of_kind KFiber g) = false ->
+   smem n (uids_of_kind KRoadm g ++ uids_of_kind KEdfa g) = true ->
+     forall loose, decide g cr cf ci nn loose dst route i n = AKeep) /\
+  (forall loose s, decide g cr cf ci nn loose dst route i n = ARename s -> In s (suggestions g cr cf ci n)).
+Proof.
+  intros. split; [apply decide_strict_trx_fiber|]. split; [apply decide_strict_unknown|].
+  split; [intros; apply decide_exact_kept; assumption | intros; eapply decide_rename_in_suggestions; eassumption].
+Qed.
+Print Assumptions C20_decide_spec.
+Theorem C20_correct_route_keeps : forall k r r', correct_route k r = Ok r' ->
   r_id r' = r_id r /\ r_src r' = r_src r /\ r_dst r' = r_dst r /\ r_trx r' = r_trx r /\ r_mode r' = r_mode r /\
   r_spacing_hz r' = r_spacing_hz r /\ r_power_dbm r' = r_power_dbm r /\ r_nbch r' = r_nbch r /\
   r_disj r' = r_disj r /\ r_loose r' = r_loose r /\ r_bw_bps r' = r_bw_bps r /\ r_bidir r' = r_bidir r /\
-  In (r_src r) tu /\ In (r_dst r) tu.
+  In (r_src r) (uids_of_kind KTrx (k_graph k)) /\ In (r_dst r) (uids_of_kind KTrx (k_graph k)).
 Proof. exact correct_route_keeps. Qed.
-Print Assumptions C20_correct_route_keeps_partial.
+Print Assumptions C20_correct_route_keeps.
+(* without `clean` the slot-by-slot statement is false of the faithful model, and names matched by substring drop
+   valid hops: witnesses, both reproduced on gnpy (corpus/C20/r04, r05) *)
+Theorem C20_surgery_order_refuted :
+  nodes_after w_order (svc_row "A" "B" "F | I | B | west fused spans in F" "yes")
+    = Ok [["west edfa in I"; "roadm B"; "west fused spans in F"]]%string /\
+  nodes_after w_order (svc_row "A" "B" "F | I | B" "yes")
+    = Ok [["west fused spans in F"; "west edfa in I"; "roadm B"]]%string.
+Proof. exact surgery_order_refuted. Qed.
+Print Assumptions C20_surgery_order_refuted.
+Theorem C20_prefix_name_refuted :
+  nodes_after w_prefix (svc_row "B" "C" "A1 | C" "no") = Ok [["roadm C"]]%string /\
+  nodes_after w_prefix (svc_row "A" "B" "A10 | B" "no") = Ok [["west edfa in A10"; "roadm B"]]%string.
+Proof. exact prefix_name_refuted. Qed.
+Print Assumptions C20_prefix_name_refuted.
+
+(* ---- header recognition (read_header / read_slice / parse_headers) ----
+   A label is looked for on the header line and the nine following lines; on a line it matches the first text cell
+   that CONTAINS it; a line holding a non-zero number inside the slice yields no header at all. *)
+Theorem C20_header_search : forall g a b label n line r, find_label g line a b label n = Some r ->
+  exists k, (k < n)%nat /\ read_slice g (line + k) a b label = Some r /\
+            forall j, (j < k)%nat -> read_slice g (line + j) a b label = None.
+Proof. exact find_label_spec. Qed.
+Print Assumptions C20_header_search.
+Theorem C20_read_slice_at : forall g line a b label hs j h,
+  all_some (map header_text (row_slice g line a b)) = Some hs -> (a <= b)%nat ->
+  nth_error hs j = Some h -> contains label h = true -> label <> EmptyString ->
+  (forall i h', (i < j)%nat -> nth_error hs i = Some h' -> h' = EmptyString \/ contains label h' = false) ->
+  exists c', read_slice g line a b label = Some ((a + j)%nat, c').
+Proof. exact read_slice_at. Qed.
+Print Assumptions C20_read_slice_at.
+Theorem C20_label_absent : forall g line a b label,
+  (forall k h c, (k < 10)%nat -> In (h, c) (read_header g (line + k) a b) -> contains label h = false) ->
+  find_label g line a b label 10 = None.
+Proof. exact label_absent. Qed.
+Print Assumptions C20_label_absent.
+(* what a sheet must satisfy: every label of the dictionary is read on the header line itself (C20_read_slice_at) at
+   its intended column - then the mapping is the intended one; an optional label that is left out must be contained
+   in no text cell of the ten lines (C20_label_absent), else it is taken from there (witnesses below) *)
+Theorem C20_columns_read_as_intended : forall g line a b (col : string -> nat) d hd,
+  (forall label field, In (label, field) d -> exists c', read_slice g line a b label = Some (col label, c')) ->
+  d <> [] \/ hd <> [] ->
+  parse_flat g d hd line a b = Ok (intended d col hd) /\
+  (NoDup (map fst hd ++ map (fun lf => col (fst lf)) d) ->
+   intended d col hd = hd ++ map (fun lf => (col (fst lf), snd lf)) d).
+Proof. intros. split; [apply parse_flat_intended; assumption | apply intended_distinct]. Qed.
+Print Assumptions C20_columns_read_as_intended.
+(* well-formed sheets that are mis-read (both reproduced on gnpy through xls_to_json_data):
+   a Nodes sheet with the City column only and a site called Type-C: column 0 is read as the node type, no column as
+   the city ("Duplicate city"); a one-sided Links sheet with a site called Southwest in a row without numbers: the
+   east distance column is read as west_distance, every east length becomes the default *)
+Theorem C20_header_hazard_nodes :
+  parse_headers g_nodes_h1 node_headers [] 4 0 10 = Ok [(0%nat, "node_type"%string)].
+Proof. exact header_hazard_nodes. Qed.
+Print Assumptions C20_header_hazard_nodes.
+Theorem C20_header_hazard_links : exists hd,
+  parse_headers (g_links_h2 "Southwest") link_headers [] 3 0 16 = Ok hd /\
+  parse_row [CStr "A"; CStr "B"; CNum 10] hd "east_distance" = CEmpty /\
+  parse_row [CStr "A"; CStr "B"; CNum 10] hd "west_distance" = CNum 10.
+Proof. exact header_hazard_links. Qed.
+Print Assumptions C20_header_hazard_links.
 
 (* ---- non-vacuity ---- *)
 (* ROADM A, ROADM B, an ILA I (Eqpt row naming its second neighbour), an ILA J without row, a FUSED site F, a site K
@@ -180,3 +302,35 @@ Example ex_request : exists q, request_element [("Voyager", ["mode 1"; "mode 2"]
   r_nodes q = ["A"; "roadm B"]%string /\ r_loose q = false /\
   pathsync q = Some (Some "3", [Some "3"; Some "0"; Some "r1"])%string.
 Proof. eexists. split; [vm_compute; reflexivity|]. repeat split; reflexivity. Qed.
+
+(* the slot-by-slot theorem applies: a route without repeated names whose corrections are not written in it *)
+Example ex_clean :
+  let dec := fun (i : nat) (n : string) =>
+    if seqb n "A" then ARename "roadm A" else if seqb n "nowhere" then ADrop else AKeep in
+  clean dec 0 ["nowhere"; "A"; "roadm B"]%string [] /\
+  surgery dec 0 ["nowhere"; "A"; "roadm B"]%string ["nowhere"; "A"; "roadm B"]%string = Ok ["roadm A"; "roadm B"]%string.
+Proof.
+  split; [|vm_compute; reflexivity].
+  apply clean_sufficient.
+  - repeat constructor; cbn; intuition discriminate.
+  - intros x [].
+  - intros j n s Hn D Hs. cbn in Hn, Hs.
+    destruct Hn as [<-|[<-|[<-|[]]]]; cbn in D; inversion D; subst s; intuition discriminate.
+Qed.
+(* impairments: row (A, I) of ex_w with from degree F and id 0 *)
+Example ex_impairment : exists n, convert ex_w = Ok n /\ exists e, In e (elements n) /\ el_uid e = URoadm "A" /\
+  match el_c e with
+  | CRoadm _ _ _ pi => pi = Some [(UEdfaTo West "A" "F", UEdfaTo East "A" "I", 0)]
+  | _ => False
+  end.
+Proof.
+  eexists. split; [vm_compute; reflexivity|]. eexists. split; [do 3 right; left; reflexivity|].
+  split; reflexivity.
+Qed.
+(* a standard Nodes header line is read as intended *)
+Example ex_headers :
+  parse_headers [[CEmpty]; [CEmpty]; [CEmpty]; [CEmpty];
+                 [CStr "City"; CStr "State"; CStr "Country"; CStr "Region"; CStr "Latitude"; CStr "Longitude"; CStr " Type "];
+                 [CStr "Type-C"; CStr "x"; CStr "y"; CStr "z"; CNum 1; CNum 2; CStr "ROADM"]] node_headers [] 4 0 10
+  = Ok [(0, "city"); (1, "state"); (2, "country"); (3, "region"); (4, "latitude"); (5, "longitude"); (6, "node_type")]%nat%string.
+Proof. vm_compute. reflexivity. Qed.
